@@ -808,6 +808,27 @@ func ruleRelease(r *Report) {
 					leak = true
 				}
 			}
+			// once the offset is released it is somebody else's: free() hands it back at once, not at
+			// commit, so nothing is queued for it any more (a delete marker queued "to wipe what the
+			// callback left" is applied to whichever row owns the offset when this transaction commits)
+			var late *deepCall
+			for _, c := range callsToDeep(ins, false, "(*commit.Buffer).PutOperation") {
+				c := c
+				cc, _, _ := callCommon(c.Inner)
+				if !sameE(cc.Args[2], c.Env, nextV, next[0].Env, 0) {
+					continue
+				}
+				for _, f := range free {
+					if (c.Site.Block() == f.Site.Block() && instrIndex(f.Site) < instrIndex(c.Site)) || (c.Site.Block() != f.Site.Block() && canReach(f.Site, c.Site)) {
+						late = &c
+					}
+				}
+			}
+			latePos := r.P.Pos(ins.Pos())
+			if late != nil {
+				latePos = r.P.InstrPos(late.Inner)
+			}
+			h.Check(late == nil, "(*column.Txn).insert/released-untouched", latePos, "nothing is queued for the offset after it was released", "a row marker is queued for the reserved offset after free() released it: free hands the offset back immediately, so when this transaction commits the marker is applied to the row another insert — of this or of another transaction — has placed there meanwhile (its values, its deadline and the row itself are wiped)")
 			mcc, _, _ := callCommon(marker.Inner)
 			h.Check(!leak && sameE(mcc.Args[2], marker.Env, nextV, next[0].Env, 0), "(*column.Txn).insert/marker", r.P.InstrPos(marker.Inner), "insert marker written only after the row callback succeeded", "the insert marker is buffered before the row callback ran: when the callback fails the freed offset still carries an insert marker (a committing transaction re-creates the row; a rollback cannot tell which offsets to release)")
 		}
